@@ -98,7 +98,7 @@ def oracle(rc, st):
     pos = {}
     for i, m in enumerate(msgs):
         pos[(m["task_uuid"], tuple(m["task_level"]))] = i
-    O.account(msgs, rc.model, lenient=True)
+    O.account(msgs, rc.model, lenient=True, ends=False)
     # (a MemoryLogger stores messages unserialized, so field contents are not compared with the model here)
     tasks = list(Parser.parse_stream(msgs))
     written = {}         # (uuid, prefix) -> WrittenAction
@@ -164,11 +164,16 @@ def oracle(rc, st):
     if rc.model.all_actions():
         T0 = rc.model.all_actions()[0].atype
         tmp = list(msgs)
-        LoggedAction.of_type(tmp, T0)
-        del tmp
-        # (the second list's messages are told apart by value, not identity: a helper may hand out copies)
-        tmp2 = [dict(m, c17_probe="second list") for m in msgs]
-        for la in LoggedAction.of_type(tmp2, T0):
+        try:
+            LoggedAction.of_type(tmp, T0)
+            del tmp
+            # (the second list's messages are told apart by value, not identity: a helper may hand out copies)
+            tmp2 = [dict(m, c17_probe="second list") for m in msgs]
+            second = LoggedAction.of_type(tmp2, T0)
+        except Exception as e:  # noqa
+            raise Violation(("helper_raised", {"exc": type(e).__name__}),
+                            "LoggedAction.of_type(%r) raised %s: %s" % (T0, type(e).__name__, e))
+        for la in second:
             if la.start_message.get("c17_probe") != "second list":
                 raise Violation("of_type_stale", "of_type() on a fresh list returned actions built from another list's messages")
         rc.probe("recycled_list_queried")
@@ -202,10 +207,8 @@ def oracle(rc, st):
                 raise Violation("type_tree", "type_tree() %r != %r" % (la.type_tree(), type_tree(wa)))
             n = sm.get("nid")
             node = rc.model.by_nid.get(n) if n is not None else None
-            if node is not None and node.kind == "action":
-                if la.succeeded != (node.outcome == "succeeded"):
-                    raise Violation("succeeded", "action nid=%s: succeeded=%r, body outcome %r" % (
-                        n, la.succeeded, node.outcome))
+            # (the flag is compared with the logged end message and the parser above; whether that status is
+            # what the body did is C03's statement)
         # assertHasAction with drawn expectations, against the first entry
         tc = unittest.TestCase()
         first = las[0]
